@@ -21,14 +21,9 @@
    the array before the call with the specification's n result words stored
    at z (mem_eq = pointwise equality; no extensionality axiom is used).
 
-   Assembly kernels WITHOUT a closed theorem here (covered only by the
-   correspondence run of harness/props/C07.py: CPU = interpreter on the
-   generated program = Go model = KernSpec on every generated case):
-     add10VW, sub10VW
-     (including the copies of decCpy they tail-jump to; the copies of decCpy /
-     decCpyInv linked into shr10VU / shl10VU are covered by those theorems).
-   For these two the Go side (the g_ models) is proved below for all inputs;
-   what is missing is the loop-invariant proof of the generated assembly program.
+   The assembly theorems for add10VW and sub10VW (including the copies of decCpy they
+   tail-jump to and the fold of the 2^64 hardware carry) are in Props/C07b.v
+   (L1/AsmProofsVW.v); with them every assembly kernel has a closed theorem.
    The digit helpers decDigits64, nlz10, trailingZeroDigits have Gallina
    models (L1/KernG.v) tied by the correspondence run only. *)
 From Coq Require Import ZArith List.
